@@ -34,6 +34,14 @@ CHECKS = {
          "Family 'encoding': each vocabulary request with every single deviation from the default encoding (4 representations x indexed/literal name x Huffman per field; every HEADERS/CONTINUATION split offset incl. empty fragments and, thorough, every pair of offsets; size update at block start split everywhere; pad lengths 0/1/255; priority section; every composition of the body into <= 3 DATA frames incl. empty and padded ones; END_STREAM on last DATA / empty DATA / trailers incl. trailers+CONTINUATION). Family 'interleave': 2 (quick) / 3 (thorough) streams of [block, DATA, DATA+ES] where later blocks use dynamic-table entries of earlier ones: all linear extensions x all handler completion orders x 9 response shapes (buffered small/large, streamed declared/unknown/empty, EOF with last chunk, one byte per read, connection-specific and non-letter header names) x 2 preludes. Oracle: one handler invocation per request with exactly the fields/body/trailers sent; per stream HEADERS then DATA equal to the handler's response with END_STREAM exactly once.",
          "Header names compared case-insensitively, order only among same-name fields (fasthttp API); cookie crumbs joined with '; '. Canonical internal schedule between events.",
          "DESIGN.md §4 C01"),
+ "C09": ("exhaustive enumeration (ELX) of a catalogue of stream-scoped offences x offence points x all interleavings with a concurrent well-formed stream x handler completion orders on the real ServeConn",
+         "22 offences (malformed field first/middle/last of a block that inserts dynamic-table entries, connection-specific, bad pseudo-header, TE, content-length; oversized body; length mismatch; refused stream over the limit; peer RST_STREAM before body / mid-body / handler running / response flow-blocked; handler panic; stream WINDOW_UPDATE 0 / overflow; DATA, trailers(+CONTINUATION), WINDOW_UPDATE in flight after the server's reset), each with and without a CONTINUATION split, interleaved in every way with a victim stream opened before, followed by a victim whose header block references the entries the offending block inserted. Oracle: victims dispatched once and intact, responses intact, no GOAWAY, connection open, no panic, pools clean.",
+         "The peer keeps sending what it had queued before the server's RST_STREAM (frames in flight). Canonical internal schedule between events.",
+         "DESIGN.md §4 C09"),
+ "C20": ("bounded-exhaustive enumeration of request header lists over a valid/invalid vocabulary, each executed on the real ServeConn (ELX) between two well-formed neighbours, judged by an RFC 7540 8.1.2 predicate",
+         "Every subset of <= 2 (quick) / <= 3 (thorough) of 28 vocabulary items applied to a base request x body {0,5} x trailers {none, valid, with pseudo-header} x position {first, middle, last}: well-formed <=> dispatched exactly once and intact; malformed => never dispatched and only that stream gets RST_STREAM(PROTOCOL_ERROR) or a 4xx; neighbours dispatched and answered intact; no GOAWAY.",
+         "ref/msg.go is the RFC 7540 8.1.2 predicate restricted to the vocabulary (no CONNECT, no token grammar). Blocks are encoded without dynamic-table references (HPACK accounting of rejected blocks is C09's). The client half is covered once the client harness exists (same check id).",
+         "DESIGN.md §4 C20"),
 }
 
 NOT_YET = "check not built yet (work in progress; see DESIGN.md §6 build order)"
